@@ -343,3 +343,65 @@ def gc10(ctx):
                       'an in-memory update (%s) happens after the GC pass has recorded queue positions: the positions logged before file deletion describe a state this call then changes (e.g. a deleted queue is re-created at restart)' % (b.loc(late[0]) if late else '-'))
     if n == 0:
         ctx.missing('gc-callers', 'no API body calls the GC pass')
+
+
+@rule('LOG6', ['C01', 'C02', 'C04'], floor=2, template='sibling-agreement')
+def log6(ctx):
+    """What a call logs is what it does: the arguments of the WAL entry and the arguments of the in-memory mutator of
+    the same call are the same values -- the queue name, and for a truncation the range itself, not a clamped,
+    normalised or recomputed copy on either side (replay would then do something else than the live call did)."""
+    from core import op_local
+    n = 0
+    def origin_ids(b, op):
+        ol = op_local(op)
+        if ol is None:
+            return frozenset([('const', json_key(op))])
+        ids = set()
+        seen, work = set(), [ol]
+        while work:
+            l = work.pop()
+            if l in seen:
+                continue
+            seen.add(l)
+            for o in b.trace_local(l):
+                if o[0] == 'param':
+                    ids.add(('param', o[1]))
+                elif o[0] == 'call':
+                    # content-preserving views of a parameter count as the parameter
+                    if o[1].name.split('::')[-1].split('<')[0] in ('deref', 'as_ref', 'borrow', 'as_str', 'clone') and o[1].arg_local(0) is not None:
+                        work.append(o[1].arg_local(0))
+                    else:
+                        ids.add(('call', o[1].name.split('::')[-1]))
+                elif o[0] == 'rv' and o[2]['k'] == 'ref' and not [e for e in o[2]['place']['p'] if e['k'] != 'deref']:
+                    work.append(o[2]['place']['l'])
+                elif o[0] == 'rv':
+                    ids.add(('rv', o[2]['k'], o[2].get('adt') or o[2].get('op')))
+                elif o[0] == 'place':
+                    ids.add(('place', o[2]['l']))
+                elif o[0] == 'const':
+                    ids.add(('const', 0))
+        return frozenset(ids)
+    def json_key(op):
+        return str(op.get('bits') or op.get('text'))
+    for b in api_mut(ctx):
+        if b.generic_dup():
+            continue
+        kw = kinds_written(ctx, b)
+        mem_calls = [cs for cs in b.calls if cs.node is not None and ctx.E.call_may(cs, 'MEM') and ctx.f.bodies[cs.node].path.startswith('mem::')]
+        for kind, sites in kw.items():
+            for (cs, p, rv) in sites:
+                for fname in ('truncate_range', 'queue'):
+                    fop = agg_field_op(rv, fname)
+                    if fop is None or op_local(fop) is None:
+                        continue
+                    fty = b.local_ty(op_local(fop))
+                    cands = [(mc, a) for mc in mem_calls for a in mc.args[1:] if op_local(a) is not None and b.local_ty(op_local(a)) == fty]
+                    if not cands:
+                        continue
+                    n += 1
+                    want = origin_ids(b, fop)
+                    ok = any(origin_ids(b, a) == want for (_mc, a) in cands) and all(i[0] == 'param' for i in want)
+                    ctx.check(ok, '%s:%s:%s' % (b.path, kind, fname), where(b, p), 'the %s logged is the argument itself, and the in-memory mutator gets the same' % fname,
+                              'the %s written to the WAL entry and the one applied in memory are not the same value (logged from %s): replay would not repeat what the live call did' % (fname, sorted(map(str, want))))
+    if n == 0:
+        ctx.missing('entries', 'no logged entry with arguments shared with an in-memory mutator found')
